@@ -294,13 +294,22 @@ class _DeadCodeEliminate:
                     case _:
                         raise RuntimeError(f'unexpected def: {d}')
 
-            # if a phi variable is unused, then its arguments are also unused
+            # if a phi variable is unused, then its arguments are also unused,
+            # unless an argument is read directly or feeds another (live) phi
+            def _feeds_only_unused(d) -> bool:
+                return (
+                    len(self.def_use.uses[d]) == 0
+                    and all(s in unused_phi for s in self.def_use.successors[d] if isinstance(s, PhiDef))
+                )
+
             for phi in unused_phi:
                 lhs = self.def_use.defs[phi.lhs]
                 rhs = self.def_use.defs[phi.rhs]
-                if isinstance(lhs, AssignDef) and isinstance(lhs.site, Assign) and isinstance(lhs.site.target, Id):
+                if (isinstance(lhs, AssignDef) and isinstance(lhs.site, Assign) and isinstance(lhs.site.target, Id)
+                        and _feeds_only_unused(lhs)):
                     unused_assign.add(lhs.site)
-                if isinstance(rhs, AssignDef) and isinstance(rhs.site, Assign) and isinstance(rhs.site.target, Id):
+                if (isinstance(rhs, AssignDef) and isinstance(rhs.site, Assign) and isinstance(rhs.site.target, Id)
+                        and _feeds_only_unused(rhs)):
                     unused_assign.add(rhs.site)
 
             # run code eliminator
